@@ -649,6 +649,9 @@ func (s *Server) read(ch receiver) {
 			s.stopLocked(err)
 			s.mu.Unlock()
 			return
+		} else if s.ch == nil { // stopped while receiving; discard the input
+			s.mu.Unlock()
+			return
 		} else if derr != nil { // parse failure; report and continue
 			s.pushErrorLocked(derr)
 		} else if len(in) == 0 {
